@@ -134,6 +134,11 @@ HighPrioFIFO == \A i, j \in 1..Len(execs) :
 EdgeImpliesFlag == (edge \/ cpc = "WR" \/ \E p \in Prods : ppc[p] = "WR") => wakeup = 1
 CountersLag == /\ ulen = Len(uq) - Cardinality({p \in Prods : ppc[p] = "INC" /\ ptgt[p] = "u"}) + (IF cpc = "DU" THEN 1 ELSE 0)
                /\ llen = Len(lq) - Cardinality({p \in Prods : ppc[p] = "INC" /\ ptgt[p] = "l"}) + (IF cpc = "DL" THEN 1 ELSE 0)
+\* the two conjuncts of the inductive invariant of Wakeup.tla (the counter-only abstraction of this protocol that
+\* Apalache proves for an unbounded number of queued tasks), restated on this module's state: they tie that proof's
+\* shape to the model that is replayed on the real poller
+FlagMeansWake == wakeup = 1 => (edge \/ cpc \in {"DU", "DL", "S0", "WR"} \/ \E p \in Prods : ppc[p] = "WR")
+ClearMeansSeen == (wakeup = 0 /\ ulen + llen > 0) => (cpc \in {"RC", "KL", "KU"} \/ \E p \in Prods : ppc[p] = "CAS")
 AllIssued == \A p \in Prods : ~HasMore(p)
 AllRun == AllIssued /\ Len(execs) = Cardinality(UNION {{<<p, i>> : i \in 1..Len(Script[p])} : p \in Prods})
 \* every accepted request is eventually run (exactly once by ExecAtMostOnce)
